@@ -122,6 +122,7 @@ class IterGen(kgen.Gen):
             self.tiny()
             for _ in range(nops):
                 self.delete_front_middle_end()
+                if self.nq < self.qmax + 3 and r.chance(1, 2): self.query()
                 if r.chance(1, 5): self.do("GC")
                 if r.chance(1, 6): self.toggle()
         elif p == "itermodes":
